@@ -154,3 +154,196 @@ fn s5_packet_two_fragments() {
         Err(_) => {}
     }
 }
+
+// S8: chrono-based conversions and encoders
+#[kani::proof]
+#[kani::unwind(4)]
+fn s8_datetime_from_value_11() {
+    let raw: [u8; 12] = kani::any();
+    kani::assume(raw[0] == 11);
+    let y = u16::from_le_bytes([raw[1], raw[2]]);
+    kani::assume(y >= 1 && y <= 9999 && raw[3] >= 1 && raw[3] <= 12 && raw[4] >= 1 && raw[4] <= 28);
+    kani::assume(raw[5] < 24 && raw[6] < 60 && raw[7] < 60);
+    let us = u32::from_le_bytes([raw[8], raw[9], raw[10], raw[11]]);
+    kani::assume(us < 1_000_000);
+    let mut inp = &raw[..];
+    let v = crate::Value::parse_from(&mut inp, ColumnType::MYSQL_TYPE_DATETIME, false).unwrap();
+    let d: chrono::NaiveDateTime = v.into();
+    use chrono::{Datelike, Timelike};
+    assert!(d.year() == y as i32 && d.month() == raw[3] as u32 && d.day() == raw[4] as u32);
+    assert!(d.hour() == raw[5] as u32 && d.minute() == raw[6] as u32 && d.second() == raw[7] as u32);
+    assert!(d.nanosecond() == us * 1000);
+}
+
+#[kani::proof]
+#[kani::unwind(4)]
+fn s8_date_bin() {
+    let y: i32 = kani::any(); let m: u32 = kani::any(); let dd: u32 = kani::any();
+    kani::assume(y >= 0 && y <= 9999 && m >= 1 && m <= 12 && dd >= 1 && dd <= 31);
+    if let Some(d) = chrono::NaiveDate::from_ymd_opt(y, m, dd) {
+        let c = Column { table: String::new(), column: String::new(), coltype: ColumnType::MYSQL_TYPE_DATE, colflags: ColumnFlags::empty() };
+        let mut b = Buf::<16> { b: [0; 16], n: 0 };
+        d.to_mysql_bin(&mut b, &c).unwrap();
+        assert!(b.n == 5 && b.b[0] == 4);
+        assert!(u16::from_le_bytes([b.b[1], b.b[2]]) as i32 == y && b.b[3] as u32 == m && b.b[4] as u32 == dd);
+    }
+}
+
+// S9: mysql_common lenenc
+#[kani::proof]
+#[kani::unwind(10)]
+fn s9_lenenc_int() {
+    use crate::myc::io::WriteMysqlExt;
+    let x: u64 = kani::any();
+    let mut b = Buf::<16> { b: [0; 16], n: 0 };
+    let n = b.write_lenenc_int(x).unwrap();
+    assert!(n as usize == b.n);
+    if x < 251 { assert!(b.n == 1 && b.b[0] as u64 == x); }
+    else if x < 65536 { assert!(b.n == 3 && b.b[0] == 0xFC && u16::from_le_bytes([b.b[1], b.b[2]]) as u64 == x); }
+    else if x < 16777216 { assert!(b.n == 4 && b.b[0] == 0xFD && (b.b[1] as u64 | (b.b[2] as u64) << 8 | (b.b[3] as u64) << 16) == x); }
+    else { assert!(b.n == 9 && b.b[0] == 0xFE && u64::from_le_bytes([b.b[1],b.b[2],b.b[3],b.b[4],b.b[5],b.b[6],b.b[7],b.b[8]]) == x); }
+}
+
+// S10: client_handshake, 4.1 layout, user name <= 8 bytes
+fn memchr_spec(needle: u8, hay: &[u8]) -> Option<usize> {
+    let mut i = 0;
+    while i < hay.len() { if hay[i] == needle { return Some(i); } i += 1; }
+    None
+}
+
+#[kani::proof]
+#[kani::stub(memchr::memchr::memchr, memchr_spec)]
+#[kani::unwind(13)]
+fn s10_handshake41() {
+    const N: usize = 32 + 8 + 3;
+    let b: [u8; N] = kani::any();
+    let n: usize = kani::any();
+    kani::assume(n <= N);
+    let p = &b[..n];
+    kani::assume(n >= 2 && (p[1] & 0x02) != 0); // CLIENT_PROTOCOL_41 = 0x0200
+    kani::assume(n < 4 || (p[1] & 0x08) == 0);  // no SSL
+    match crate::commands::client_handshake(p, false) {
+        Ok((_rest, h)) => {
+            assert!(n >= 33);
+            let u = h.username.unwrap();
+            assert!(u.as_ptr() == unsafe { p.as_ptr().add(32) });
+            assert!(u.len() < n - 32 && p[32 + u.len()] == 0);
+            let k: usize = kani::any();
+            kani::assume(k < u.len());
+            assert!(u[k] != 0);
+        }
+        Err(_) => {
+            // either too short or no NUL terminator after offset 32
+            if n >= 33 { let k: usize = kani::any(); kani::assume(k >= 32 && k < n); assert!(p[k] != 0); }
+        }
+    }
+}
+
+// S11: parse_from over every column type code, 12-byte input
+fn fmt_stub(_a: std::fmt::Arguments<'_>) -> String { String::new() }
+
+#[kani::proof]
+#[kani::stub(std::fmt::format, fmt_stub)]
+#[kani::unwind(12)]
+fn s11_parse_from_all() {
+    let b: [u8; 12] = kani::any();
+    let n: usize = kani::any();
+    kani::assume(n <= 12);
+    let code: u8 = kani::any();
+    let unsigned: bool = kani::any();
+    if let Ok(ct) = ColumnType::try_from(code) {
+        let mut inp = &b[..n];
+        let r = crate::Value::parse_from(&mut inp, ct, unsigned);
+        if ct == ColumnType::MYSQL_TYPE_LONG && !unsigned {
+            match r {
+                Ok(v) => { assert!(n >= 4 && inp.len() == n - 4); assert!(i64::from(v) == i32::from_le_bytes([b[0], b[1], b[2], b[3]]) as i64); }
+                Err(_) => assert!(n < 4),
+            }
+        }
+    }
+}
+
+#[kani::proof]
+#[kani::stub(memchr::memchr::memchr, memchr_spec)]
+#[kani::unwind(10)]
+fn s12_memchr_direct() {
+    let b: [u8; 6] = kani::any();
+    let r = memchr::memchr(0, &b[..]);
+    if let Some(i) = r { assert!(b[i] == 0); }
+}
+
+unsafe fn memchr_raw_spec(n1: u8, start: *const u8, end: *const u8) -> Option<*const u8> {
+    let mut p = start;
+    while p < end { if *p == n1 { return Some(p); } p = p.add(1); }
+    None
+}
+#[kani::proof]
+#[kani::stub(memchr::arch::x86_64::memchr::memchr_raw, memchr_raw_spec)]
+#[kani::unwind(10)]
+fn s13_memchr_raw() {
+    let b: [u8; 6] = kani::any();
+    let r = memchr::memchr(0, &b[..]);
+    if let Some(i) = r { assert!(b[i] == 0); let k: usize = kani::any(); kani::assume(k < i); assert!(b[k] != 0); }
+    else { let k: usize = kani::any(); kani::assume(k < 6); assert!(b[k] != 0); }
+}
+
+// S14: C15 family — symbolic value, symbolic column type and flags
+fn range_of(ct: ColumnType, unsigned: bool) -> Option<(i128, i128, usize)> {
+    let w = match ct {
+        ColumnType::MYSQL_TYPE_TINY => 1,
+        ColumnType::MYSQL_TYPE_SHORT | ColumnType::MYSQL_TYPE_YEAR => 2,
+        ColumnType::MYSQL_TYPE_LONG | ColumnType::MYSQL_TYPE_INT24 => 4,
+        ColumnType::MYSQL_TYPE_LONGLONG => 8,
+        _ => return None,
+    };
+    let bits = 8 * w as u32;
+    Some(if unsigned { (0, (1i128 << bits) - 1, w) } else { (-(1i128 << (bits - 1)), (1i128 << (bits - 1)) - 1, w) })
+}
+fn decode(b: &[u8; 16], w: usize, unsigned: bool) -> i128 {
+    let mut raw = [0u8; 8];
+    let mut i = 0;
+    while i < w { raw[i] = b[i]; i += 1; }
+    let u = u64::from_le_bytes(raw);
+    if unsigned { u as i128 } else {
+        match w { 1 => (u as u8 as i8) as i128, 2 => (u as u16 as i16) as i128, 4 => (u as u32 as i32) as i128, _ => (u as i64) as i128 }
+    }
+}
+macro_rules! c15 {
+    ($name:ident, $t:ty, $ptr:expr) => {
+        #[kani::proof]
+        #[kani::stub(std::fmt::format, fmt_stub)]
+        #[kani::unwind(10)]
+        fn $name() {
+            let v: $t = kani::any();
+            let code: u8 = kani::any();
+            let unsigned: bool = kani::any();
+            let ct = match ColumnType::try_from(code) { Ok(c) => c, Err(_) => return };
+            let c = col(ct, unsigned);
+            let mut b = Buf::<16> { b: [0; 16], n: 0 };
+            let r = v.to_mysql_bin(&mut b, &c);
+            if let Some((lo, hi, w)) = range_of(ct, unsigned) {
+                if r.is_ok() {
+                    assert!(b.n == w);
+                    assert!(decode(&b.b, w, unsigned) == v as i128);      // C15.exact
+                }
+                if $ptr {
+                    if (v as i128) >= lo && (v as i128) <= hi { assert!(r.is_ok()); }   // C15.accept.ptr
+                } else if lo <= (<$t>::MIN as i128) && (<$t>::MAX as i128) <= hi {
+                    assert!(r.is_ok());                                  // C15.accept.fixed
+                }
+            } else {
+                assert!(r.is_err());
+            }
+        }
+    };
+}
+fn col(ct: ColumnType, unsigned: bool) -> Column {
+    Column { table: String::new(), column: String::new(), coltype: ct,
+        colflags: if unsigned { ColumnFlags::UNSIGNED_FLAG } else { ColumnFlags::empty() } }
+}
+c15!(s14_u8, u8, false);
+c15!(s14_i8, i8, false);
+c15!(s14_i32, i32, false);
+c15!(s14_u64, u64, false);
+c15!(s14_usize, usize, true);
+c15!(s14_isize, isize, true);
